@@ -45,7 +45,16 @@ class Other(Exception):
 
 
 CLASSES = [Base, SubA, SubB, Other, OSError]
-SPELL = [tuple, list, set]
+def _aliases(l):
+    import socket
+    out = []
+    for c in l:
+        out += [socket.error, IOError, EnvironmentError, c] if c is OSError else [c]
+    return out
+
+
+# the same filter spelled as a tuple, a list, a set; with every class named twice; and with the aliases of OSError in place of it
+SPELL = [tuple, list, set, lambda l: tuple(l) + tuple(l), lambda l: list(l) + list(l)[::-1], lambda l: tuple(_aliases(l)), lambda l: _aliases(l)[::-1]]
 METHODS = ["get", "set", "op"]
 OKV = object()
 
@@ -169,7 +178,7 @@ def cases(tier, seed):
         seqs = sorted(set(seqs))
         for seq in seqs:
             for pi, (rf, dn) in enumerate(pairs):
-                for spell in range(3):
+                for spell in (0, 1, 2, 3 + (pi + len(seq)) % 4):
                     if not rf and not dn and spell:
                         continue
                     # delay and method do not interact with the decision: rotate them instead of multiplying
@@ -205,6 +214,12 @@ VALID = [
     ("Exception itself", dict(retry_for=[Exception])),
     ("frozen spelling tuple", dict(retry_for=(Base, Other), do_not_retry_for=(OSError,))),
     ("attempts=1000", dict(attempts=1000, retry_delay=3)),
+    ("a class named twice in one tuple", dict(retry_for=(Base, Base))),
+    ("a class named twice in one list", dict(do_not_retry_for=[Other, SubA, Other])),
+    ("aliases of OSError in one tuple", dict(retry_for=(__import__("socket").error, OSError))),
+    ("aliases of OSError in one list", dict(retry_for=[IOError, OSError, EnvironmentError], do_not_retry_for=[Base])),
+    ("aliases of OSError in a set", dict(retry_for={__import__("socket").error, OSError})),
+    ("duplicates in both, no overlap", dict(retry_for=(SubA, SubA), do_not_retry_for=(SubB, SubB))),
 ]
 
 
